@@ -15,6 +15,9 @@
 //   GR s l c                          Gaussian::resize(dim_linear, dim_circular)
 //   G1 s l                            Gaussian::resize(dim_linear)   (default argument)
 //   AU s qr qc <qr*qc hex, col-major> augmentWithNoise
+//   AA s i                            s.augmentWithNoise(s.covariance(i))   (argument aliases own storage)
+//   MV dst src mode                   move construction (0) / move assignment (1) dst = std::move(src); src is destroyed afterwards
+//   BA dst src                        static_cast<GaussianMixture&>(dst) = static_cast<const GaussianMixture&>(src)
 //   PE dst src                        dst += src
 //   PL dst a b                        dst = a + b
 //   WM s mode i j v  WC s mode i j k v  WW s mode i v  WS s mode i j v
@@ -84,8 +87,14 @@ static void dump(Out& o, int slot, Obj& ob) {
     o.s("M").n(mr).n(mc).s("C").n(cr).n(cc).s("W").n(wr).s("S").n(sr).n(sc);
     // accessor geometry (never asserts: ranges are tested first)
     o.s("A");
+    // whole-storage accessors, non-const overloads (the const ones supplied M, C, W, S above)
+    o.s("H");
+    { Ref<MatrixXd> m = g.mean(); geom(o, m, M.data(), mr); }
+    { Ref<MatrixXd> c = g.covariance(); geom(o, c, C.data(), cr); }
+    { Ref<VectorXd> w = g.weight(); geom(o, w, W.data(), wr); }
+    if (ob.kind == PS) { const ParticleSet& cp = ob.ps(); Ref<MatrixXd> st = ob.ps().state(); geom(o, st, cp.state().data(), sr); }
     long dc = g.dim_covariance;
-    long kk = std::min<long>(g.components, 16);
+    long kk = std::min<long>(g.components, 32);
     for (long i = 0; i < kk; ++i) {
         if (i < mc) { geom(o, g.mean(i), M.data(), mr); geom(o, cg.mean(i), M.data(), mr); } else o.s("oob");
         if (i < mc && mr > 0) { pos(o, &g.mean(i, mr - 1), M.data(), mr); pos(o, &cg.mean(i, mr - 1), M.data(), mr); } else o.s("-");
@@ -167,8 +176,9 @@ static std::string shp(Toks& t) {
             if (!pool[src].p) skip = true;
             else { GaussianMixture* n = new GaussianMixture(*pool[src].p); pool[dst].p.reset(n); pool[dst].kind = GM; }
         } else if (op == "RS" || op == "R2") {
+            // on a Gaussian this is the inherited virtual GaussianMixture::resize (through the base pointer)
             dst = slot(t.nat()); long k = t.nat(), l = t.nat(), c = (op == "RS") ? t.nat() : 0;
-            if (!pool[dst].p || pool[dst].kind == GA || k < 1) skip = true;
+            if (!pool[dst].p || k < 1) skip = true;
             else if (op == "RS") pool[dst].p->resize(k, l, c);
             else pool[dst].p->resize(k, l);
         } else if (op == "GR" || op == "G1") {
@@ -181,10 +191,33 @@ static std::string shp(Toks& t) {
             MatrixXd Q = t.mat(qr, qc);
             if (!pool[dst].p || pool[dst].p->components < 1) skip = true;
             else ret = pool[dst].p->augmentWithNoise(Q) ? "t" : "f";
+        } else if (op == "AA") {
+            dst = slot(t.nat()); long i = t.nat();
+            if (!pool[dst].p || pool[dst].p->components < 1) skip = true;
+            else ret = pool[dst].p->augmentWithNoise(pool[dst].p->covariance(i)) ? "t" : "f";
+        } else if (op == "MV") {
+            dst = slot(t.nat()); long src = slot(t.nat()); long mode = t.nat();
+            if (!pool[src].p || dst == src) skip = true;
+            else {
+                Obj& sc = pool[src];
+                if (mode == 1 && pool[dst].p && pool[dst].kind == sc.kind) {
+                    if (sc.kind == GM) *pool[dst].p = std::move(*sc.p);
+                    else if (sc.kind == GA) pool[dst].ga() = std::move(sc.ga());
+                    else pool[dst].ps() = std::move(sc.ps());
+                } else {
+                    GaussianMixture* n = sc.kind == GM ? new GaussianMixture(std::move(*sc.p))
+                        : sc.kind == GA ? (GaussianMixture*)new Gaussian(std::move(sc.ga())) : (GaussianMixture*)new ParticleSet(std::move(sc.ps()));
+                    pool[dst].p.reset(n); pool[dst].kind = sc.kind;
+                }
+                pool[src].p.reset();
+            }
+        } else if (op == "BA") {
+            dst = slot(t.nat()); long src = slot(t.nat());
+            if (!pool[dst].p || !pool[src].p) skip = true;
+            else { GaussianMixture& d = *pool[dst].p; const GaussianMixture& sref = *pool[src].p; d = sref; }
         } else if (op == "PE") {
             dst = slot(t.nat()); long src = slot(t.nat());
             if (!pool[dst].p || !pool[src].p || pool[dst].kind != PS || pool[src].kind != PS) skip = true;
-            else if (dst == src && pool[dst].p->components < 1) skip = true;
             else pool[dst].ps() += pool[src].ps();
         } else if (op == "PL") {
             dst = slot(t.nat()); long a = slot(t.nat()), b = slot(t.nat());
